@@ -1,0 +1,20 @@
+//go:build verif
+
+package pogreb
+
+// Contracts for backup.go (GoVC, see /verif/DESIGN.md). Comment-only file.
+// Sequential protocol only: which bytes are copied (the snapshot bound) and the interplay with concurrent writers
+// are not decided.
+
+//@ func segmentName(id uint16, sequenceID uint64) string [C12,C18]
+//@   pure
+
+//@ func touchFile(fsys fs.FileSystem, path string) (err error) [C12]
+//@   requires fs: fsys != nil
+//@   ensures [C12] exists: err == nil ==> dirFid[fsys][path] != 0
+//@   ensures names: forall n string :: n != path ==> dirFid[fsys][n] == old(dirFid[fsys][n])
+//@   modifies dirFid[fsys], fLen, fDur, fData, hOpen, hPos, fidOf, fidName
+
+// DB.Backup itself is not under contract: its first loop ranges over the unnamed result of segmentsBySequenceID while
+// appending to another slice of the same element type, and the contract language cannot name the ranged slice to
+// state that the two do not share a backing array.
